@@ -1,27 +1,40 @@
 #!/bin/bash
 # usage: vcheck.sh <id> quick|thorough        run a check against /repo's working tree
 #        vcheck.sh <id> replay <file>         replay a recorded violation
+# env:   VERIF_REPO=<dir>  check another copy of the repository (default /repo; used to run the
+#                          checks against seeded changes in scratch worktrees, in parallel)
+#        VERIF_ROOT=<dir>  where evidence/, .work/replays and known_findings.txt live (default /verif)
 set -u
-cd "$(dirname "$0")"
+cd "$(dirname "$0")"; HERE=$(pwd)
 export GOFLAGS=-mod=mod GOPROXY=off GOSUMDB=off GOTOOLCHAIN=local
-export GOCACHE=${GOCACHE:-/verif/.work/gocache}
+export GOCACHE=${GOCACHE:-$HERE/.work/gocache}
+export VERIF_ROOT=${VERIF_ROOT:-$HERE}
 ID=${1:?id}; MODE=${2:-quick}
 id=$(echo "$ID" | tr 'A-Z' 'a-z')
+REPO=${VERIF_REPO:-/repo}
+TAG=""
+export VERIF_MODFLAG=""
+if [ "$REPO" != /repo ]; then
+  TAG="-$(echo "$REPO" | md5sum | cut -c1-8)"
+  sed "s|=> /repo|=> $REPO|" go.mod > $HERE/.work/go$TAG.mod; cp go.sum $HERE/.work/go$TAG.sum
+  export VERIF_MODFLAG="-modfile=$HERE/.work/go$TAG.mod"
+fi
+export VERIF_TAG="$TAG"
 mkdir -p .work/bin evidence
 SCHED_IDS=" c04 c05 c09 c10 c17 c18 c19 "
-bin=/verif/.work/bin/$id
+bin=$HERE/.work/bin/$id$TAG
 if [[ "$SCHED_IDS" == *" $id "* ]]; then
-  ./sched_build.sh "$id" || { echo "INFRA-ERROR: build of $id failed"; exit 2; }
-  export VERIF_RACE_BIN=/verif/.work/bin/$id-race
+  ./sched_build.sh "$id" "$REPO" || { echo "INFRA-ERROR: build of $id failed"; exit 2; }
+  export VERIF_RACE_BIN=$HERE/.work/bin/$id$TAG-race
 else
-  go build -o "$bin" ./checks/$id 2> .work/build-$id.log || { cat .work/build-$id.log; echo "INFRA-ERROR: build of $id failed"; exit 2; }
+  go build $VERIF_MODFLAG -o "$bin" ./checks/$id 2> .work/build-$id$TAG.log || { cat .work/build-$id$TAG.log; echo "INFRA-ERROR: build of $id failed"; exit 2; }
 fi
 if [ "$id" = c04 ] && [ "$MODE" != replay ]; then
-  # sequential part: plain build (the files of /repo byte for byte), merged by the concurrent part
-  go build -o /verif/.work/bin/c04seq ./checks/c04seq 2> .work/build-c04seq.log || { cat .work/build-c04seq.log; echo "INFRA-ERROR: build of c04seq failed"; exit 2; }
-  rm -f /verif/.work/c04seq.json
-  VERIF_PARTIAL=/verif/.work/c04seq.json /verif/.work/bin/c04seq "$MODE" || { echo "INFRA-ERROR: c04seq failed"; exit 2; }
-  export VERIF_SEQ_PARTIAL=/verif/.work/c04seq.json
+  # sequential part: plain build (the files of the repository byte for byte), merged by the concurrent part
+  go build $VERIF_MODFLAG -o $HERE/.work/bin/c04seq$TAG ./checks/c04seq 2> .work/build-c04seq$TAG.log || { cat .work/build-c04seq$TAG.log; echo "INFRA-ERROR: build of c04seq failed"; exit 2; }
+  rm -f $HERE/.work/c04seq$TAG.json
+  VERIF_PARTIAL=$HERE/.work/c04seq$TAG.json $HERE/.work/bin/c04seq$TAG "$MODE" || { echo "INFRA-ERROR: c04seq failed"; exit 2; }
+  export VERIF_SEQ_PARTIAL=$HERE/.work/c04seq$TAG.json
 fi
 if [ "$MODE" = replay ]; then
   VERIF_SEQ_REPLAY=${3:?file} VERIF_REPLAY=${3} exec "$bin" quick
